@@ -20,7 +20,9 @@ type Pipe struct {
 	closed  bool
 	eofs    int
 	writes  [][]byte // log of client writes
-	inbox   [][]byte // client writes not yet consumed by the peer
+	inbox   [][]byte // client PACKETS not yet consumed by the peer (see feed)
+	partial []byte   // bytes of a packet the client has not written completely yet
+	packets [][]byte // log of complete client packets
 	nWrite  int
 	failAt  int
 	failErr error
@@ -130,15 +132,40 @@ func (p *Pipe) Write(b []byte) (int, error) {
 		}
 		if n > 0 {
 			p.writes = append(p.writes, append([]byte{}, b[:n]...))
-			p.inbox = append(p.inbox, append([]byte{}, b[:n]...))
+			p.feed(b[:n])
 		}
 		return n, p.failErr
 	}
 	c := append([]byte{}, b...)
 	p.writes = append(p.writes, c)
-	p.inbox = append(p.inbox, c)
+	p.feed(c)
 	return len(b), nil
 }
+
+// feed re-chunks what the client writes into protocol packets (8-byte header, total length in
+// bytes 2..3, big-endian), which is how a TDS peer reads the stream: the peer side of the transport
+// (PeerRecv, Packets) does not depend on how the client spreads its bytes over Write calls.
+func (p *Pipe) feed(b []byte) {
+	p.partial = append(p.partial, b...)
+	for len(p.partial) >= 8 {
+		l := int(p.partial[2])<<8 | int(p.partial[3])
+		if l < 8 {
+			l = 8
+		}
+		if len(p.partial) < l {
+			return
+		}
+		pk := append([]byte{}, p.partial[:l]...)
+		p.partial = p.partial[l:]
+		p.inbox = append(p.inbox, pk)
+		p.packets = append(p.packets, pk)
+	}
+}
+
+// Packets returns the log of complete packets the client has written so far; Partial the bytes of
+// a packet still incomplete.
+func (p *Pipe) Packets() [][]byte { return p.packets }
+func (p *Pipe) Partial() []byte   { return p.partial }
 
 func (p *Pipe) Close() error {
 	s := S
